@@ -15,13 +15,15 @@ MANIFEST = {
     "technique": "Coq proof (row-by-row fidelity of the emitted sml table, hook rows exactly once per state) + parsing the real make_transition_table back + declaration regexes + g++ -fsyntax-only against an interface-only sml stub",
     "text": ("Theorems C09_rows (rows_of (gen_sml ee T) = spec_rows T: one row per input row in order, same source/event/guard/action/target, gnone/none "
              "for absent guard/action, no target for rows without next state, initial marker on row 0 only), C09_entry_exit (exactly one entry and one exit "
-             "hook row per state of the table incl. target-only states), C09_hooks_only_states, C09_self_consistent_partial (every referenced state/event/"
-             "guard/action/(action,event) signature is in the duplicate-free element list the per-element blocks iterate over). Tie: constants and loop "
+             "hook row per state of the table incl. target-only states), C09_hooks_only_states, C09_self_consistent (every declaration a row needs -- state, event with its parameter list, guard, action, "
+             "(action,event) signature, in controller / interface / implementation / test unit -- is produced exactly once by the per-element blocks of the file "
+             "that must hold it, as (kind, name, params) triples; Model/Decls.v over the block shapes of Gen/DeclTmpl.v), C09_declares_only_elements. Tie: constants and loop "
              "structure of smgen.innerexpand_sml regenerated into Gen/SmlTmpl.v; the real make_transition_table(...) text parsed back to items and compared "
-             "with gen_sml and, independently, with a Python reading of the property; declarations of the four generated files extracted by regex and "
-             "counted; both translation units type-checked by g++ -std=c++17 -fsyntax-only against harness/stubs/boost/sml.hpp."),
-    "note": ("Self-consistency is PARTIAL in Coq: the templates' per-element blocks and C++ name lookup are not modelled; that each list element becomes exactly "
-             "one declaration per file with the event's parameter list is observed (regex counts, g++), not proved. The sml stub stands in for boost::sml "
+             "with gen_sml and, independently, with a Python reading of the property; the (kind, name, params) triples read out of the four real files by per-kind regexes equal Decls.decls_file and every reference of refs_cpp is found "
+             "exactly once; smgen.CTransitionTableModel vs Model/TTable.v on a batch of its own, the model following Gen/TTModelSrc.v (translator obligations on the "
+             "containers and the signature key); both translation units type-checked by g++ -std=c++17 -fsyntax-only against harness/stubs/boost/sml.hpp."),
+    "note": ("Self-consistency is proved for names, parameter lists and multiplicities of declarations; C++ type checking itself (name lookup, overload resolution, member "
+             "types) stays OBSERVED by g++ -fsyntax-only against the stub, not proved. The sml stub stands in for boost::sml "
              "(empty submodule): it checks that referenced names exist and are callable with the right argument types, not sml's semantics. "
              "Proved about smgen as repaired by three fix: commits ('' next state internal, hooks for target-only states, signature key)."),
 }
@@ -178,6 +180,7 @@ def one_case(ctx, table, spec, ns, dll, compile_it):
             return "sml row %d is %r, the table says %r" % (k, got_rows[k:k + 1], rows[k:k + 1]), "sml-rows"
         if got_hooks != hooks:
             return "entry/exit hook rows %r, the table's states need %r" % (got_hooks, hooks), "sml-hooks"
+        smlib.decl_correspondence(ctx, "cpp", files, table, spec)
         r = check_decls(table, spec, files)
         if r:
             return r, "cpp-declarations"
@@ -237,6 +240,7 @@ def run(ctx):
     ctx.case(("known-probe", "cpp-event-named-Event"))
     if fail:
         ctx.violation(fail, {"table": ev_table, "iface": {"structs": [], "usertags": {}}, "ns": "NS", "dll": "", "finding_key": "cpp-event-named-Event"})
+    smlib.ttmodel_batch(ctx, ctx.budget(400, 5000))   # the table model this property's model is built on
     n = ctx.budget(250, 1500)
     every = 5 if ctx.quick and not ctx.broken else 3
     for i in range(n):
